@@ -355,6 +355,13 @@ def canonical_exprs(run):
         big += [f"Either(*{w!r})", f"Concat(*{w!r})", f"Either(*{[x[0] for x in w]!r})", f"WordContains({w!r})", f"WordStartsWith({w!r}, is_extensible=True)",
                 f"AnyFrom(*{[chr(0x61 + 2 * i) for i in range(n_)]!r})", f"AnyButFrom(*{[chr(0x3b1 + i) for i in range(n_)]!r})",
                 f"FollowedBy('x', *{w!r})", f"NotEnclosedBy('x', *{[x[:2] for x in w]!r})", f"Enclose('x', *{w!r})"]
+    # repeated arguments (a de-duplicating shortcut is exactly where a set sneaks in)
+    for n_ in (3, 4, 11, 17):
+        w = words[:n_]
+        d = w + [w[1], w[0], w[1]]
+        big += [f"Either(*{d!r})", f"WordContains({d!r})", f"WordEndsWith({d!r}, is_extensible=True)", f"AnyFrom(*{[x[0] for x in d]!r})", f"FollowedBy('x', *{d!r})", f"Concat(*{d!r})"]
+    big += ["Date(['d/m/yy', 'd/m/yyyy', 'd/m/yy'], is_extensible=True)", "Date(['d/m/yyyy', 'd/m/yy', 'd/m/yyyy', 'dd/mm/yy', 'd/m/yy'], is_extensible=True)",
+            "Date(['mm-dd-yy', 'mm-d-yyyy', 'mm-dd-yyyy', 'm-d-yy', 'mm-dd-yy'])", "Date(['yyyy/m/d'] * 3 + ['yy/m/d'] * 2, is_extensible=True)"]
     from .lang import all_formats
     f48 = all_formats()
     big += [f"Date({f48[:n_]!r}, is_extensible=True)" for n_ in (3, 10, 16, 17, 33, 48)] + [f"Date({f48[::-1][:n_]!r})" for n_ in (5, 17, 48)]
